@@ -16,6 +16,7 @@ structure St where
   omodels : List (Nat × Model.Orderer.OState) := []   -- implementation-level model, run in lock-step
   vmodels : List (Nat × Model.Vec.VState) := []       -- implementation-level vector index, in lock-step
   rmodels : List (Nat × Model.RootsStore.RStore) := [] -- roots table + cache model (C33), in lock-step
+  allBlocks : List (Nat × List Inst.Block) := []       -- every block an instance emitted so far
 
 def parsePairs (ws : List String) : List (Nat × Nat) :=
   ws.filterMap (fun p => match p.splitOn ":" with
@@ -85,7 +86,7 @@ def sortStr (l : List String) : List String := l.foldr insertSortedStr []
 def posIn (i : Inst) (n : Nat) : Option Nat := i.posOf n
 
 def needsInst (op : String) : Bool :=
-  ["restart", "reset", "build", "rebuild", "process", "fc", "hb", "roots", "state"].contains op
+  ["restart", "reset", "build", "rebuild", "process", "fc", "hb", "roots", "state", "allblocks"].contains op
 
 def knownParents (st : St) (e : Ev) : Bool := e.parents.all (fun p => (st.events.lookup p).isSome)
 
@@ -173,7 +174,10 @@ def step (st : St) (ws : List String) : St × String :=
                     | some g => (Model.Election.rootFrames (g.selfParentFrame e) e.frame).foldl
                         (fun r f => Model.RootsStore.addRoot evictAllButNewest r ⟨e.n, f, e.creator⟩) (getR st (nat! k))
                     | none => getR st (nat! k)
-        (setR (setV (setO (setInst st (nat! k) i') (nat! k) o') (nat! k) v') (nat! k) r', s!"ok {stateStr i'} {fmtBlocks bs}{note}")
+        let st1 := setR (setV (setO (setInst st (nat! k) i') (nat! k) o') (nat! k) v') (nat! k) r'
+        let prevB := (st.allBlocks.lookup (nat! k)).getD []
+        ({ st1 with allBlocks := (nat! k, prevB ++ bs) :: st.allBlocks.filter (fun x => x.1 != nat! k) },
+         s!"ok {stateStr i'} {fmtBlocks bs}{note}")
   | ["fc", k, a, b] =>
     let i := getInst st (nat! k)
     match posIn i (nat! a), posIn i (nat! b) with
@@ -198,6 +202,10 @@ def step (st : St) (ws : List String) : St × String :=
     let ml := rr.map (fun x => s!"{x.validator}:{x.id}")
     let note := if sortStr ml == sortStr l then "" else " ROOTS-MODEL-DIFFERS"
     (setR st (nat! k) r', (if l.isEmpty then "-" else " ".intercalate (sortStr l)) ++ note)
+  | ["allblocks", k] =>
+    let bs := (st.allBlocks.lookup (nat! k)).getD []
+    (st, if bs.isEmpty then "-" else
+      " ".intercalate (bs.map (fun b => s!"{b.epoch}.{b.frame}:a={b.atropos}:ch=[{joinNat b.cheaters ","}]")))
   | ["state", k] =>
     let i := getInst st (nat! k)
     (st, s!"{stateStr i} vals={",".intercalate (i.vals.map (fun p => s!"{p.1}:{p.2}"))}")
